@@ -3,7 +3,7 @@
 1. MC    : Repro.tla - a harness as a seeded transition system run twice in one process and once
            in another; Reproducible / PrefixAgree hold for the pure harness and fail for each
            as-built switch (ambient read; leftover state outside the harness).
-2. Record: every built-in harness and preset (39: executor, list, set, hash, sorted set,
+2. Record: every built-in harness and preset (39, plus 5 configurations that are not presets: executor, list, set, hash, sorted set,
            transaction, four CRDT harnesses, streaming, WAL, compaction, DSTSimulation,
            RedisDSTSimulation, partition tests, pipeline simulator) is run for each seed
              - twice in process A (A1, then A2 after everything else ran once),
@@ -92,7 +92,7 @@ def run(tier):
     rep.cov["distinct_nontrivial"] = len(recs)
     rep.cov["rule"] = "a case is one pair of runs of the same (harness preset, seed): same process (second run later) or two processes with reversed harness order; every pair executes at least one operation"
     rep.cov["exhaustive"] = False
-    rep.cov["explanation"] = "all 39 harness presets, a handful of seeds each; seeds and operation counts are samples"
+    rep.cov["explanation"] = "all 39 harness presets and 5 further configurations (other Zipfian key distributions, persistence that never flushes), a handful of seeds each; seeds and operation counts are samples"
     rep.assumptions += ["a run's trace is what the harness exposes: last operation per step where available (executor, list, set, hash, sorted set, transaction), the running result otherwise, and the final state dump / result / verdict",
                         "Debug renderings are compared after sorting the members of every {...} group",
                         "two processes differ in hash seeds, allocator state and the order in which the harnesses ran; wall-clock dependence shows only if it changes a logged value"]
